@@ -548,4 +548,53 @@ theorem step_keeps {par : Nat → Sess} {P : Nat → Nat → Nat → Prop} (hp :
   | connect s' => exact absurd hok (by simp [EvG])
   | disconnect s' => exact absurd hok (by simp [EvG])
 
+/-! ### whole runs -/
+
+theorem run_conserve_M {par : Nat → Sess} {P : Nat → Nat → Nat → Prop} (hp : GPar par) (s mid : Nat) :
+    ∀ (evs : List Ev) (l : L), FInv False par P l → RunG l evs →
+      (∀ s mid r, Ev.submit s true mid r ∈ evs → P s mid (calcTimeout (par s).atI (par s).atF (par s).arfI (par s).arfF r)) →
+      Phi s mid (Msg.run l evs) + ackC s mid l evs = Phi s mid l + accC s mid l evs := by
+  intro evs
+  induction evs with
+  | nil => intro l _ _ _; rfl
+  | cons ev evs ih =>
+    intro l hi hin hP
+    have hi1 := step_finv (pu := False) hp l ev hi hin.1 (fun h => h.elim) (fun s mid r h => hP s mid r (by simp [h]))
+    have h1 := (step_keeps hp s mid l ev hi hin.1).1
+    have h2 := ih _ hi1 hin.2 (fun s mid r h => hP s mid r (by simp [h]))
+    simp only [Msg.run, List.foldl_cons, ackC, accC] at h2 ⊢
+    omega
+
+theorem run_quiet_M {par : Nat → Sess} {P : Nat → Nat → Nat → Prop} (hp : GPar par) (s mid : Nat) :
+    ∀ (evs : List Ev) (l : L), FInv False par P l → RunG l evs →
+      (∀ s mid r, Ev.submit s true mid r ∈ evs → P s mid (calcTimeout (par s).atI (par s).atF (par s).arfI (par s).arfF r)) →
+      Psi s mid l = 0 → accC s mid l evs = 0 →
+      txC s mid (Msg.run l evs).out = txC s mid l.out ∧ Psi s mid (Msg.run l evs) = 0 := by
+  intro evs
+  induction evs with
+  | nil => intro l _ _ _ h0 _; exact ⟨rfl, h0⟩
+  | cons ev evs ih =>
+    intro l hi hin hP h0 hacc
+    simp only [accC] at hacc
+    have hi1 := step_finv (pu := False) hp l ev hi hin.1 (fun h => h.elim) (fun s mid r h => hP s mid r (by simp [h]))
+    have h1 := step_keeps hp s mid l ev hi hin.1
+    have h2 := ih _ hi1 hin.2 (fun s mid r h => hP s mid r (by simp [h])) (by have := h1.2.1; omega) (by omega)
+    simp only [Msg.run, List.foldl_cons] at h2 ⊢
+    exact ⟨by rw [h2.1, h1.2.2 h0 (by omega)], h2.2⟩
+
+theorem runG_append (l : L) (a b : List Ev) : RunG l (a ++ b) ↔ RunG l a ∧ RunG (Msg.run l a) b := by
+  induction a generalizing l with
+  | nil => simp [RunG, Msg.run]
+  | cons e a ih =>
+    simp only [List.cons_append, RunG, Msg.run, List.foldl_cons]
+    rw [ih]
+    simp only [Msg.run, and_assoc]
+
+theorem phi_init (s mid now0 : Nat) (sess : List Sess) (h : ∀ se ∈ sess, SessOk se) :
+    Phi s mid (Msg.init now0 sess) = 0 := by
+  have := (parOf_ok sess h s).2.1
+  simp only [Phi, Msg.init, nackC, pendC]
+  show 0 + 0 + midC mid (parOf sess s).delayq = 0
+  rw [this]; rfl
+
 end Coap.Sched
